@@ -459,6 +459,10 @@ func (p c11) compiled(c *core.Ctx) {
 		l0, _, _ := world.NewLocalTypeFixtures()
 		world.Start(&world.Scenario{}, world.Options{Extra: []any{l0}, NoTracer: true})
 	}
+	// the user tag processor of the generated family takes part: it must be handed the embedded field that
+	// carries its tag (and nothing else of these holders)
+	rec := &recorder{seen: map[string][]string{}}
+	extra = append(extra, rec, &mytagScanner{processors.DefaultTagScanDefinitionRegistryPostProcessor{NodeType: "custom", Tag: "mytag"}})
 	r := world.Start(g.Sc, world.Options{Extra: extra})
 	c.Count("starts", 1)
 	if r.Outcome() != "ok" {
@@ -470,6 +474,13 @@ func (p c11) compiled(c *core.Ctx) {
 		return
 	}
 	for _, h := range holders {
+		if _, ok := h.(*world.HolderTaggedEmbeds); ok {
+			got := rec.seen["verifharness/world/HolderTaggedEmbeds"]
+			if len(got) != 1 || !strings.HasPrefix(got[0], "Stamped|created|") {
+				c.Fail("", fmt.Sprintf("HolderTaggedEmbeds: the user tag processor for mytag received %v, expected exactly the embedded field Stamped with value \"created\"", got), nil)
+				return
+			}
+		}
 		for _, problem := range h.Check(nameOf) {
 			c.Fail("", fmt.Sprintf("%T: %s", h, problem), nil)
 			return
